@@ -88,7 +88,7 @@ def reader_check(run, world, prefix, saved, label):
 
 
 def run_tape(tape):
-    with seams.deterministic(tape) as clock:
+    with seams.deterministic(tape, scrambled_ids=True) as clock:
         return _run(tape, clock)
 
 
